@@ -239,8 +239,13 @@ func c17Scenarios(cfg runCfg) []Scenario {
 	for i := 0; i < n; i++ {
 		if cfg.mine(i) {
 			fam := "dir"
-			if mix(cfg.seed, 1717, uint64(i))%5 == 0 {
+			switch mix(cfg.seed, 1717, uint64(i)) % 10 {
+			case 0, 1:
 				fam = "explicit"
+			case 2:
+				fam = "version"
+			case 3:
+				fam = "explicit-history"
 			}
 			out = append(out, Scenario{Family: fam, Seed: mix(cfg.seed, 17, uint64(i)), K: 1 + i%6})
 		}
@@ -260,6 +265,9 @@ func c17Run(t *testing.T, sc Scenario, res *Result) {
 		thr = 1<<63 - 1
 	}
 	extraDraws := r.intn(3)
+	if sc.Family != "dir" {
+		extraDraws = 0 // these families need the genuine fail file to remain usable
+	}
 	skipBelow := int64(0)
 	body := func(thr int64) func(x *X) {
 		return func(x *X) {
@@ -290,6 +298,84 @@ func c17Run(t *testing.T, sc Scenario, res *Result) {
 		return
 	}
 	valid, _ := os.ReadFile(genFiles[0])
+	if sc.Family == "version" {
+		// fail files written by another rapid version are ignored even when their test case would still fail
+		hdrLine := func(content []byte) (int, []string) {
+			lines := strings.Split(string(content), "\n")
+			for i, l := range lines {
+				if !strings.HasPrefix(l, "#") && strings.TrimSpace(l) != "" {
+					return i, lines
+				}
+			}
+			return 0, lines
+		}
+		os.RemoveAll("testdata")
+		base := runBody(body(thrLow), runOpts{name: name, flags: fl})
+		ver := rapidVersion()
+		others := []string{ver + ".1", ver + "-rc1", strings.TrimPrefix(ver, "v"), "v0.0.1", "v99.0.0", ver[:len(ver)-1], ver + "0", "V" + ver[1:], " " + ver}
+		if i := strings.LastIndex(ver, "."); i > 0 {
+			others = append(others, ver[:i], ver[:i+1]+"0"+ver[i+1:])
+		}
+		n := r.between(1, 3)
+		os.MkdirAll(failDir(name), 0o775)
+		var planted []string
+		for k := 0; k < n; k++ {
+			h, lines := hdrLine(valid)
+			ov := pick(r, others)
+			if strings.TrimSpace(ov) == ver {
+				continue
+			}
+			lines[h] = ov + lines[h][strings.Index(lines[h], "#"):]
+			os.WriteFile(filepath.Join(failDir(name), fmt.Sprintf("%s-2026010100000%d-%d.fail", sanitize(name), k, 200+k)), []byte(strings.Join(lines, "\n")), 0o644)
+			planted = append(planted, ov)
+		}
+		with := runBody(body(thrLow), runOpts{name: name, flags: fl})
+		res.inc("directories")
+		res.inc("other_version_still_failing")
+		res.count("files_planted", int64(len(planted)))
+		res.nontrivial("version/" + strings.Join(planted, ","))
+		if with.rp.Kind != base.rp.Kind || with.rp.M != base.rp.M || with.rp.N != base.rp.N || with.rp.Seed != base.rp.Seed {
+			res.violate(sc, "c17/other-version-used", fmt.Sprintf("fail files of other versions %q changed the run: %q vs %q in an empty directory", planted, clip(with.rp.Raw, 140), clip(base.rp.Raw, 140)),
+				map[string]any{"versions": planted, "with_files": with.tb.brief(), "empty_dir": base.tb.brief()})
+		}
+		logs := 0
+		for _, l := range with.tb.logs() {
+			if strings.HasPrefix(l, "[rapid] ignoring fail file") {
+				logs++
+			}
+		}
+		if logs != len(planted) {
+			res.violate(sc, "c17/other-version-log", fmt.Sprintf("%d other-version files but %d 'ignoring fail file' log lines", len(planted), logs), map[string]any{"versions": planted, "with_files": with.tb.brief()})
+		}
+		return
+	}
+	if sc.Family == "explicit-history" {
+		// the file given with -rapid.failfile changes between two Checks of one process: usable and failing first,
+		// then replaced by garbage at the same path - the second Check must see the file as it is now
+		os.RemoveAll("testdata")
+		base := runBody(body(thrLow), runOpts{name: name, flags: fl})
+		wd, _ := os.Getwd()
+		other, _ := os.MkdirTemp(wd, "elsewhere")
+		defer os.RemoveAll(other)
+		pth := filepath.Join(other, "given.fail")
+		os.WriteFile(pth, valid, 0o644)
+		first := runBody(body(thrLow), runOpts{name: name, flags: flagsWith(fl, "rapid.failfile", pth)})
+		junk := pick(r, [][]byte{nil, []byte("garbage"), valid[:len(valid)/3], []byte("# only a comment\n")})
+		os.WriteFile(pth, junk, 0o644)
+		second := runBody(body(thrLow), runOpts{name: name, flags: flagsWith(fl, "rapid.failfile", pth)})
+		res.inc("directories")
+		res.inc("explicit_history_runs")
+		res.nontrivial(fmt.Sprintf("explicit-history/%d", len(junk)))
+		if first.rp.N != 0 || (first.rp.Kind != "failed" && first.rp.Kind != "panic") {
+			res.inconclusive("the usable explicit fail file did not reproduce: " + clip(first.rp.Raw, 100))
+			return
+		}
+		if second.rp.Kind != base.rp.Kind || second.rp.M != base.rp.M || second.rp.N != base.rp.N || second.rp.Seed != base.rp.Seed {
+			res.violate(sc, "c17/explicit-stale", fmt.Sprintf("after the explicit fail file was replaced by an unusable one the Check did not behave as without it: %q vs %q", clip(second.rp.Raw, 140), clip(base.rp.Raw, 140)),
+				map[string]any{"second": second.tb.brief(), "without_file": base.tb.brief()})
+		}
+		return
+	}
 	if sc.Family == "explicit" {
 		// an unusable file given with -rapid.failfile must not change what happens to the usable, still failing
 		// fail file in the test's own directory (whatever the two files are called)
